@@ -183,6 +183,7 @@ type Sim struct {
 	net   *netState
 
 	StepBudget  uint64 // per Run call
+	sliceEnd    uint64 // step at which the task running now is declared to run without bound
 	LoopLimit   int    // iterations at one site without version change => livelock (handler tasks)
 	SpinPark    int    // iterations after which a KindGo task is parked as spinner
 	SpinQuick   int    // optional (0 = off): park a spinner already after this many iterations; before
@@ -464,6 +465,18 @@ func Yield(site string) {
 			s.OnSQL()
 		}
 		return
+	}
+	if s.sliceEnd != 0 && s.Step > s.sliceEnd {
+		// one task has been running for ten step budgets without ever blocking or being switched
+		// out: whatever loop it is in (its iterations may well pass through yield points that keep
+		// resetting the per-site iteration count) does not end
+		s.sliceEnd = 0
+		where := site
+		if t.loopSite != "" {
+			where = t.loopSite
+		}
+		s.problem(Problem{Kind: "livelock", Task: t.Name, TaskKind: t.Kind, Site: where, Detail: "task ran without bound"})
+		panic(fmt.Sprintf("simrt livelock at %s", where))
 	}
 	if s.shouldPreempt(t, site, false) {
 		s.preempt(t)
@@ -905,9 +918,11 @@ func (s *Sim) Run(stop func() bool, advanceTime bool) StopReason {
 		t.pred = nil
 		s.cur = t
 		t.started = true
+		s.sliceEnd = s.Step + 10*s.StepBudget
 		t.wake <- struct{}{}
 		<-s.back
 		s.cur = nil
+		s.sliceEnd = 0
 		if s.Step-start > s.StepBudget {
 			return Budget
 		}
